@@ -59,7 +59,8 @@ func dump(ms *yang.Modules) string {
 			for _, id := range m.Identity {
 				fmt.Fprintf(&b, "  identity %s:", id.Name)
 				for _, v := range id.Values {
-					fmt.Fprintf(&b, " %s:%s", yang.RootNode(v).FullName(), v.Name)
+					// the text that holds the identity: kind, name@revision (a module and a submodule may share a name)
+					fmt.Fprintf(&b, " %s %s:%s", yang.RootNode(v).Kind(), yang.RootNode(v).FullName(), v.Name)
 				}
 				b.WriteByte('\n')
 			}
@@ -685,6 +686,47 @@ func genMirror(t *rapid.T) Case {
 	return c
 }
 
+// genTwins: a module and a submodule (of another module) that carry the same name - goyang files them in separate
+// registries - and, in both, identities, typedefs and groupings of equal names; optionally both carry the same
+// revision date too, so that name@revision ties as well. Whatever orders things by the name of the text that holds
+// them meets a tie here. The outcome must be the same in every run and load order.
+func genTwins(t *rapid.T) Case {
+	c := Case{Runs: 6, Features: []string{"module-and-submodule-of-one-name"}}
+	rev := ""
+	if rapid.Bool().Draw(t, "twins-same-revision") {
+		rev = "  revision 2020-02-02;\n"
+		c.Features = append(c.Features, "same-revision")
+	}
+	k := rapid.IntRange(1, 3).Draw(t, "twin-identities")
+	ids := func(tag string) string {
+		var b strings.Builder
+		for i := 0; i < k; i++ {
+			fmt.Fprintf(&b, "  identity same%d { base b:root; }\n", i)
+		}
+		fmt.Fprintf(&b, "  identity only-%s { base b:root; }\n  identity second-%s { base same0; }\n", tag, tag)
+		return b.String()
+	}
+	c.Sources = append(c.Sources,
+		ymodel.Source{Name: "base.yang", Text: "module base {\n  namespace \"urn:base\";\n  prefix b;\n  identity root;\n  leaf ref { type identityref { base root; } }\n}\n"},
+		ymodel.Source{Name: "x.yang", Text: "module x {\n  namespace \"urn:x\";\n  prefix x;\n  import base { prefix b; }\n" + rev + ids("module") + "  typedef t { type string; units \"of-module\"; }\n  grouping g { leaf gm { type t; } }\n  container cx { uses g; }\n}\n"},
+		ymodel.Source{Name: "y.yang", Text: "module y {\n  namespace \"urn:y\";\n  prefix y;\n  import base { prefix b; }\n  include x;\n  identity ytop { base b:root; }\n  container cy { uses g; leaf viat { type t; } }\n}\n"},
+		ymodel.Source{Name: rapid.SampledFrom([]string{"x-sub.yang", "x.yang"}).Draw(t, "twin-file-name"), Text: "submodule x {\n  belongs-to y { prefix y; }\n  import base { prefix b; }\n" + rev + ids("submodule") + "  typedef t { type int8; units \"of-submodule\"; }\n  grouping g { leaf gs { type t; } }\n}\n"},
+	)
+	if rapid.Bool().Draw(t, "twin-user") {
+		c.Sources = append(c.Sources, ymodel.Source{Name: "user.yang", Text: "module user {\n  namespace \"urn:user\";\n  prefix u;\n  import base { prefix b; }\n  import x { prefix x; }\n  import y { prefix y; }\n  identity mine { base x:same0; }\n  identity theirs { base y:same0; }\n  leaf a { type x:t; }\n  leaf b { type y:t; }\n  container ca { uses x:g; }\n  container cb { uses y:g; }\n}\n"})
+	}
+	n := len(c.Sources)
+	idx := make([]int, n)
+	for i := range idx {
+		idx[i] = i
+	}
+	c.Perms = append(c.Perms, append([]int(nil), idx...))
+	for i := 0; i < 5; i++ {
+		c.Perms = append(c.Perms, schema.Order(t, n))
+	}
+	return c
+}
+
 // genLate: augments that can only be applied after the implicit cases were inserted (their paths run through the
 // implicit case of a shorthand choice member), written in 2-3 modules, colliding with or building on one another.
 // Whether they succeed is not the question here; the outcome must be the same in every run and load order.
@@ -739,6 +781,9 @@ func gen(t *rapid.T) Case {
 	if rapid.IntRange(0, 19).Draw(t, "late-scenario") == 0 {
 		return genLate(t)
 	}
+	if rapid.IntRange(0, 29).Draw(t, "twins-scenario") == 0 {
+		return genTwins(t)
+	}
 	if rapid.IntRange(0, 19).Draw(t, "mirror-scenario") == 0 {
 		return genMirror(t)
 	}
@@ -747,7 +792,7 @@ func gen(t *rapid.T) Case {
 	}
 	o := ymodel.DefaultOpts()
 	o.Budget = 18
-	o.Posix = true // posix-pattern statements of openconfig-extensions in string types
+	o.Posix = true  // posix-pattern statements of openconfig-extensions in string types
 	o.Extras = true // must, when, status, reference, presence and extension statements on nodes, uses and augments
 	schema.AugmentExtras = true
 	set, _ := schema.Generate(t, o)
